@@ -201,13 +201,21 @@ class MonitoredList(MonitoredContainer, list):
         super().append(item)
 
     def __setitem__(self, idx, value):
+        # positions counted from the end are resolved now: recording the value can append inferred values to this list
         if isinstance(idx, slice):
             # the assigned iterable may be a one-shot one: it is recorded and stored from the same materialised values
             value = list(value)
+            if idx.step in (None, 1):
+                idx = slice(*idx.indices(len(self))[:2])
+        elif idx < 0:
+            idx += len(self)
         value = self._on_add(value)
         super().__setitem__(idx, value)
 
     def insert(self, idx, item):
+        if idx < 0:
+            # resolved now: recording the item can append inferred values to this list
+            idx = max(0, len(self) + idx)
         item = self._on_add(item)
         super().insert(idx, item)
 
